@@ -61,8 +61,11 @@ def plan(tier, seed):
         shards.append(dict(name=f'nrtA{g}', mode='nrt', kind='nrt', hard_timeout=600, **base))
         shards.append(dict(name=f'nrtB{g}', mode='nrt', kind='nrt', hard_timeout=600,
                            env={'PYTHONHASHSEED': str(1 + g)}, **base))
+        # (time-bounded: a shard that cannot finish its programs in time reports the
+        # batches it has done instead of being lost at the hard time-out)
         shards.append(dict(name=f'rt{g}', mode='rt', kind='rt', batch=30,
-                           p_yield=[0.0, 0.03][g % 2], hard_timeout=900, **base))
+                           p_yield=[0.0, 0.03][g % 2], hard_timeout=900,
+                           secs=60 if tier == 'quick' else 600, **base))
     for p, (f, n) in enumerate(split(sind, 2 if tier == 'quick' else 4)):
         shards.append(dict(name=f'seedind{p}', mode='nrt', kind='seedind', first_case=f,
                            n=n, secs=60 if tier == 'quick' else 500, hard_timeout=700))
@@ -267,7 +270,12 @@ def run_rt(spec, acc):
     clk.AppClock.sched(0, Function(app_slow))
     cases = list(range(cfg['first_case'], cfg['first_case'] + cfg['n']))
     try:
+        t_stop = time.time() + cfg.get('secs', 600)
         for b0 in range(0, len(cases), cfg['batch']):
+            if time.time() > t_stop:
+                acc.count('rt_batches_not_started_in_time',
+                          (len(cases) - b0 + cfg['batch'] - 1) // cfg['batch'])
+                break
             batch = cases[b0:b0 + cfg['batch']]
             runs = []
             del captured[:]
